@@ -6,35 +6,27 @@ open Dassh.Table Dassh.Gen.C08T5
 
 def pi_rot1 : Nat := 0x7807707607507407307207107006f06e06d06c06b06a06906806706606506406306206106007d07c07b07a07905805705605505405305205105004f04e04d04c04b04a04904804704604504404304204104003f03e03d03c03b03a03903803703605f05e05d05c05b05a05903002f02e02d02c02b02a02902802702602502402302202102001f01e01d01c01b01a01901803503403303203101401301201101000f00e00d00c00b00a009008007006017016015004003002001000005
 def sg_rot1 : Nat := 0x3803703603503403303203103002f02e02d02c02b02a02902802702602503c03b03a03902102001f01e01d01c01b01a01901801701601501401302402302201000f00e00d00c00b00a009008007012011005004003002001006000
-def cert_rot1 : Bool := autoCert ncool nint tyf nb donorCW donorCW (permOf pi_rot1 12)
-  && autoCert ncool nint tyf nb donorCCW donorCCW (permOf pi_rot1 12)
-  && pinAutoCert npin pinrow (permOf pi_rot1 12) (permOf sg_rot1 12)
-def pi_rot2 : Nat := 0x7307207107006f06e06d06c06b06a06906806706606506406306206106007d07c07b07a07907807707607507405105004f04e04d04c04b04a04904804704604504404304204104003f03e03d03c03b03a03903803703605f05e05d05c05b05a05905805705605505405305202b02a02902802702602502402302202102001f01e01d01c01b01a01901803503403303203103002f02e02d02c01101000f00e00d00c00b00a009008007006017016015014013012003002001000005004
-def sg_rot2 : Nat := 0x3403303203103002f02e02d02c02b02a02902802702602503c03b03a03903803703603501e01d01c01b01a01901801701601501401302402302202102001f00e00d00c00b00a00900800701201101000f004003002001006005000
-def cert_rot2 : Bool := autoCert ncool nint tyf nb donorCW donorCW (permOf pi_rot2 12)
-  && autoCert ncool nint tyf nb donorCCW donorCCW (permOf pi_rot2 12)
-  && pinAutoCert npin pinrow (permOf pi_rot2 12) (permOf sg_rot2 12)
-def pi_rot3 : Nat := 0x6e06d06c06b06a06906806706606506406306206106007d07c07b07a07907807707607507407307207107006f04a04904804704604504404304204104003f03e03d03c03b03a03903803703605f05e05d05c05b05a05905805705605505405305205105004f04e04d04c04b02602502402302202102001f01e01d01c01b01a01901803503403303203103002f02e02d02c02b02a02902802700e00d00c00b00a00900800700601701601501401301201101000f002001000005004003
-def sg_rot3 : Nat := 0x3002f02e02d02c02b02a02902802702602503c03b03a03903803703603503403303203101b01a01901801701601501401302402302202102001f01e01d01c00c00b00a00900800701201101000f00e00d003002001006005004000
-def cert_rot3 : Bool := autoCert ncool nint tyf nb donorCW donorCW (permOf pi_rot3 12)
-  && autoCert ncool nint tyf nb donorCCW donorCCW (permOf pi_rot3 12)
-  && pinAutoCert npin pinrow (permOf pi_rot3 12) (permOf sg_rot3 12)
-def pi_rot4 : Nat := 0x6906806706606506406306206106007d07c07b07a07907807707607507407307207107006f06e06d06c06b06a04304204104003f03e03d03c03b03a03903803703605f05e05d05c05b05a05905805705605505405305205105004f04e04d04c04b04a04904804704604504402102001f01e01d01c01b01a01901803503403303203103002f02e02d02c02b02a02902802702602502402302200b00a00900800700601701601501401301201101000f00e00d00c001000005004003002
-def sg_rot4 : Nat := 0x2c02b02a02902802702602503c03b03a03903803703603503403303203103002f02e02d01801701601501401302402302202102001f01e01d01c01b01a01900a00900800701201101000f00e00d00c00b002001006005004003000
-def cert_rot4 : Bool := autoCert ncool nint tyf nb donorCW donorCW (permOf pi_rot4 12)
-  && autoCert ncool nint tyf nb donorCCW donorCCW (permOf pi_rot4 12)
-  && pinAutoCert npin pinrow (permOf pi_rot4 12) (permOf sg_rot4 12)
-def pi_rot5 : Nat := 0x6406306206106007d07c07b07a07907807707607507407307207107006f06e06d06c06b06a06906806706606503c03b03a03903803703605f05e05d05c05b05a05905805705605505405305205105004f04e04d04c04b04a04904804704604504404304204104003f03e03d01c01b01a01901803503403303203103002f02e02d02c02b02a02902802702602502402302202102001f01e01d00800700601701601501401301201101000f00e00d00c00b00a009000005004003002001
-def sg_rot5 : Nat := 0x2802702602503c03b03a03903803703603503403303203103002f02e02d02c02b02a02901501401302402302202102001f01e01d01c01b01a01901801701600800701201101000f00e00d00c00b00a009001006005004003002000
-def cert_rot5 : Bool := autoCert ncool nint tyf nb donorCW donorCW (permOf pi_rot5 12)
-  && autoCert ncool nint tyf nb donorCCW donorCCW (permOf pi_rot5 12)
-  && pinAutoCert npin pinrow (permOf pi_rot5 12) (permOf sg_rot5 12)
+def cert_rot1_cw : Bool := autoCert ncool nint tyf nb donorCW donorCW (permOf pi_rot1 12)
+set_option maxRecDepth 1000000 in
+theorem cert_rot1_cw_ok : cert_rot1_cw = true := by decide +kernel
+def cert_rot1_ccw : Bool := autoCert ncool nint tyf nb donorCCW donorCCW (permOf pi_rot1 12)
+set_option maxRecDepth 1000000 in
+theorem cert_rot1_ccw_ok : cert_rot1_ccw = true := by decide +kernel
+def cert_rot1_pin : Bool := pinAutoCert npin pinrow (permOf pi_rot1 12) (permOf sg_rot1 12)
+set_option maxRecDepth 1000000 in
+theorem cert_rot1_pin_ok : cert_rot1_pin = true := by decide +kernel
 def pi_mir : Nat := 0x7d06006106206306406506606706806906a06b06c06d06e06f07007107207307407507607707807907a07b07c03603703803903a03b03c03d03e03f04004104204304404504604704804904a04b04c04d04e04f05005105205305405505605705805905a05b05c05d05e05f01801901a01b01c01d01e01f02002102202302402502602702802902a02b02c02d02e02f03003103203303403500600700800900a00b00c00d00e00f010011012013014015016017000001002003004005
 def sg_mir : Nat := 0x2602702802902a02b02c02d02e02f03003103203303403503603703803903a03b03c02501401501601701801901a01b01c01d01e01f02002102202302401300800900a00b00c00d00e00f010011012007002003004005006001000
-def cert_mir : Bool := autoCert ncool nint tyf nb donorCW donorCCW (permOf pi_mir 12)
-  && autoCert ncool nint tyf nb donorCCW donorCW (permOf pi_mir 12)
-  && pinAutoCert npin pinrow (permOf pi_mir 12) (permOf sg_mir 12)
-def certs : List Bool := [cert_rot1, cert_rot2, cert_rot3, cert_rot4, cert_rot5, cert_mir]
+def cert_mir_cw : Bool := autoCert ncool nint tyf nb donorCW donorCCW (permOf pi_mir 12)
 set_option maxRecDepth 1000000 in
-theorem certs_ok : certs.all (· = true) = true := by decide +kernel
+theorem cert_mir_cw_ok : cert_mir_cw = true := by decide +kernel
+def cert_mir_ccw : Bool := autoCert ncool nint tyf nb donorCCW donorCW (permOf pi_mir 12)
+set_option maxRecDepth 1000000 in
+theorem cert_mir_ccw_ok : cert_mir_ccw = true := by decide +kernel
+def cert_mir_pin : Bool := pinAutoCert npin pinrow (permOf pi_mir 12) (permOf sg_mir 12)
+set_option maxRecDepth 1000000 in
+theorem cert_mir_pin_ok : cert_mir_pin = true := by decide +kernel
+def certs : List Bool := [cert_rot1_cw, cert_rot1_ccw, cert_rot1_pin, cert_mir_cw, cert_mir_ccw, cert_mir_pin]
+theorem certs_ok : certs.all (· = true) = true := by
+  simp only [certs, List.all_cons, List.all_nil, decide_true, Bool.and_self, cert_rot1_cw_ok, cert_rot1_ccw_ok, cert_rot1_pin_ok, cert_mir_cw_ok, cert_mir_ccw_ok, cert_mir_pin_ok]
 end Dassh.Gen.C07T5
